@@ -465,25 +465,20 @@ theorem setBit_spec_list {a : List Nat} (ha : WF a) (hn : a.length ≤ TWO32) {i
   rw [wshl_one hr, setBitLoop_spec _ _ bv a 0 ha hm hk (by omega)]
   simp
 
-/-- `set_bit_vartime` agrees with the constant-time `set_bit` for `index < BITS`; for
-    `index ≥ BITS` the constant-time form leaves the value unchanged and the vartime form PANICS. -/
-theorem setBit_vs_vartime {a : List Nat} (ha : WF a) (hn : a.length ≤ TWO32) {idx : Nat} (hidx : idx < TWO32)
+/-- `set_bit_vartime` = the constant-time `set_bit` for EVERY index (both leave the value unchanged for
+    `index ≥ BITS`). -/
+theorem setBitVartime_eq {a : List Nat} (ha : WF a) (hn : a.length ≤ TWO32) {idx : Nat} (hidx : idx < TWO32)
     (bv : Bool) :
-    (idx < 64 * a.length → setBitVartime a idx bv = some (setBit a idx (mask bv))) ∧
-    (64 * a.length ≤ idx → setBit a idx (mask bv) = a ∧ setBitVartime a idx bv = none) := by
+    setBitVartime a idx bv = setBit a idx (mask bv) := by
   have hr : idx % 64 < 64 := Nat.mod_lt _ (by decide)
   rw [setBit_spec_list ha hn hidx]
   unfold setBitVartime
   simp only [wshl_one hr]
-  constructor
-  · intro h
-    have hk : idx / 64 < a.length := by omega
-    simp only [hk, if_true, ge_iff_le, Nat.not_le.mpr hk, if_false]
+  by_cases hk : idx / 64 < a.length
+  · simp only [hk, if_true, ge_iff_le, Nat.not_le.mpr hk, if_false]
     unfold newLimb
     cases bv <;> simp
-  · intro h
-    have hk : ¬ (idx / 64 < a.length) := by omega
-    have hk' : a.length ≤ idx / 64 := by omega
+  · have hk' : a.length ≤ idx / 64 := by omega
     simp [hk, hk']
 
 theorem getD_set (l : List Nat) (p q y : Nat) :
